@@ -156,7 +156,10 @@ func ruleBatchCodec(p *Prog, r *Report, rule string) {
 			for k, c := range uvs {
 				c := c
 				which := []string{"key", "value"}[k]
-				atoms = append(atoms, cmpAtom(which+": n<=0", token.LEQ, func(v ssa.Value) bool { ex, ok := v.(*ssa.Extract); return ok && ex.Index == 1 && ex.Tuple == ssa.Value(c) }, mConstInt(0)))
+				atoms = append(atoms, cmpAtom(which+": n<=0", token.LEQ, func(v ssa.Value) bool {
+					ex, ok := v.(*ssa.Extract)
+					return ok && ex.Index == 1 && ex.Tuple == ssa.Value(c)
+				}, mConstInt(0)))
 				atoms = append(atoms, cmpAtom(which+": o+len>len(data)", token.GTR, func(v ssa.Value) bool {
 					b, ok := isBin(v, token.ADD)
 					if !ok {
